@@ -31,6 +31,9 @@ def objects(tier):
     out["nested"] = lambda: {"a": torch.arange(3.0), "b": [torch.zeros(2, dtype=torch.int64), (torch.ones(1, dtype=torch.float16),)], "n": 3, "s": "txt"}
     out["shared-storage"] = lambda: (lambda base: [base[:3], base[3:], base])(torch.arange(6.0))
     out["empty-containers"] = lambda: {"l": [], "t": (), "d": {}}
+    # more than 255 memo entries in the model pickle (LONG_BINPUT at torch's default protocol 2)
+    out["many-tensors"] = lambda: {f"w{i}": torch.full((2,), float(i)) for i in range(60)}
+    out["deep-sequential"] = lambda: nn.Sequential(*[nn.Linear(2, 2) for _ in range(6)])
     if tier == "never":
         keep = ["linear", "sequential", "state_dict", "nested", "shared-storage", "tensor-float32-2x3", "tensor-bfloat16-scalar",
                 "tensor-int64-0", "tensor-bool-2x3", "tensor-float16-0"]
@@ -128,6 +131,10 @@ def _case(item):
         if os.path.exists(p):
             os.remove(p)
     torch.save(obj, src)
+    if overwrite:
+        # a file left at the output path by an earlier run must not survive an overwrite injection
+        with open(dst, "wb") as f:
+            f.write(b"stale output of an earlier injection")
     before = sha(src)
     with zipfile.ZipFile(src) as z:
         names0 = z.namelist()
